@@ -111,11 +111,27 @@ def concretise(sc, variant=0):
         if cls == "mastermismatch":
             m_files["thin/emoji_u1f600.svg"] = _valid(5)
             m_files["bold/emoji_u1f600.svg"] = _valid(5)
-            m_files["bold/emoji_u1f6ff.svg"] = _valid(6)  # only in one master
+            # the ways two masters can disagree (same artwork and colours everywhere, so that nothing but the source
+            # sets differs): an extra source sorting last / first, a missing last source, a renamed source
+            v = variant % 5
+            bold5 = _valid(5).replace('width="40"', 'width="44"')   # bold artwork, like every other bold file
+            m_files["bold/emoji_u1f600.svg"] = bold5
+            if v == 0:
+                m_files["bold/emoji_u1f6ff.svg"] = _valid(6)  # only in one master (and with colours of its own)
+            elif v == 1:
+                m_files["bold/emoji_u1f6ff.svg"] = bold5
+            elif v == 2:
+                m_files["thin/emoji_u1f6ff.svg"] = _valid(5)
+            elif v == 3:
+                m_files["bold/emoji_u1f5ff.svg"] = bold5
+            else:
+                m_files["thin/emoji_u1f6fe.svg"] = _valid(5)
+                m_files["bold/emoji_u1f6ff.svg"] = bold5
         srcs_thin = '["thin/*.svg", "thin/x/*.svg"]' if cls == "dupfilename" else '["thin/*.svg"]'
         srcs_bold = '["bold/*.svg", "bold/x/*.svg"]' if cls == "dupfilename" else '["bold/*.svg"]'
         m_files["config.toml"] = (
-            'output_file = "Font.ttf"\ncolor_format = "glyf_colr_1"\n[axis.wght]\nname = "Weight"\ndefault = 300\n'
+            # reuse off: masters whose shapes happen to be reused differently fail to merge for that reason alone
+            'output_file = "Font.ttf"\ncolor_format = "glyf_colr_1"\nreuse_tolerance = -1\n[axis.wght]\nname = "Weight"\ndefault = 300\n'
             f'[master.thin]\nstyle_name = "Thin"\nsrcs = {srcs_thin}\n[master.thin.position]\nwght = 300\n'
             f'[master.bold]\nstyle_name = "Bold"\nsrcs = {srcs_bold}\n[master.bold.position]\nwght = 700\n'
         )
@@ -235,12 +251,17 @@ def run(chk):
                 seen.add(key)
                 picks.append(sc)
         picks += [sc for sc in pool if sc["cls"] == "none" and sc["n"] == 2][:4]
+        # every way masters can disagree (5 instances), on scenarios with different numbers of valid neighbours
+        mm = [sc for sc in pool if sc["cls"] == "mastermismatch" and sc["fmt"] == "vf" and sc["outcome"] == "error"]
+        picks = [sc for sc in picks if sc["cls"] != "mastermismatch"] + [dict(mm[i % len(mm)], _variant=i) for i in range(5)]
     else:
         picks = pool
     with common.scratch("c17-") as work:
         def one(k_sc):
             k, sc = k_sc
-            return sc, run_scenario(sc, work, k, prebuild=(k % 3 == 0), variant=k)
+            v = sc.get("_variant", k)
+            sc = {a: b for a, b in sc.items() if a != "_variant"}
+            return sc, run_scenario(sc, work, k, prebuild=(k % 3 == 0), variant=v)
 
         with ThreadPoolExecutor(8) as ex:
             results = list(ex.map(one, enumerate(picks)))
